@@ -134,14 +134,14 @@ func CommentState(l *lexer) stateFn {
 		}
 	} else {
 		//start with /*
+		l.next()
+		l.next()
 		for {
 			r := l.next()
-			if r == '*' {
-				r = l.next()
-				if r == '/' {
-					l.ignore()
-					break
-				}
+			if r == '*' && l.peek() == '/' {
+				l.next()
+				l.ignore()
+				break
 			}
 			if r == eof {
 				l.error("comment do not has */")
